@@ -185,7 +185,9 @@ def handleChunk (e : Ep) (c : RawChunk) : Ep × Bool :=
     if c.value.length ≥ 12 then ({ (epTransmit e) with skipW := e.skipW + 1 }, true) else (e, true)
   else if ty == ctForwardTsn then
     match c.value with
-    | a :: b :: c' :: d :: rest => ({ e with rx := handleForwardTsn e.rx (rd32 a b c' d) (parsePairs rest) }, true)
+    | a :: b :: c' :: d :: rest =>
+      let r := handleForwardTsnWith procPayload e.rx (rd32 a b c' d) (parsePairs rest)
+      ({ e with rx := r.1 }, r.2)
     | _ => (e, true)
   else if ty == ctReconfig then (handleReconfig c.value.length e c.value, true)
   else if ty == ctAbort then ({ e with state := .closed }, true)
